@@ -142,6 +142,32 @@ func genC18(seed uint64, run int, tier string) Scenario {
 		op.Callbacks = append(op.Callbacks, cb)
 	}
 	sc.Ops = []OpSpec{op, {Kind: "close"}}
+	// the timeouts (600 read delays, stages 100 or 300) are meant to expire only when the device
+	// has nothing more to say: a dialogue too long for byte-sized reads within a stage timeout gets
+	// a link that delivers it in time (a slow link must not be mistaken for silence)
+	total := 0
+	for _, m := range sc.Dev.Modes {
+		for _, rep := range []*peer.Reply{m.Default, m.Empty} {
+			if rep != nil {
+				for _, t := range rep.Out {
+					total += len(t.S)
+				}
+			}
+		}
+		for _, rep := range m.Cmds {
+			for _, t := range rep.Out {
+				total += len(t.S)
+			}
+		}
+	}
+	if total > 60 {
+		if sc.ReadSize < 64 {
+			sc.ReadSize = 64
+		}
+		if sc.Net.SegMode == "one" || sc.Net.SegMode == "small" {
+			sc.Net.SegMode = "random"
+		}
+	}
 	if r.IntN(3) == 0 {
 		// a second send on the same connection: whatever the first one did (timed out, ended with
 		// an error, completed), this one has the device to itself -- every mode answers its command
@@ -161,6 +187,21 @@ func genC18(seed uint64, run int, tier string) Scenario {
 		sc.Ops = []OpSpec{op, second, {Kind: "close"}}
 	}
 	sc.Class = "generic/callbacks"
+	sc.CutEnum = pickCutEnum(run, 6)
+	if r.IntN(12) == 0 {
+		// sched-hold fault: the caller is descheduled, right after it started the reader, for longer
+		// than the operation's timeout, and no trigger ever holds (the callbacks wait for words the
+		// device never says): whatever the order in which the caller finds things when it is back,
+		// the operation must end with the timeout error
+		for i := range op.Callbacks {
+			cb := &op.Callbacks[i]
+			cb.Contains, cb.ContainsRe, cb.NotContains = fmt.Sprintf("NEVER%dSAID", i), "", ""
+		}
+		sc.Ops = []OpSpec{op, {Kind: "close"}}
+		sc.Holds = []HoldSpec{{Base: "user", Point: "cb.wait", DurNS: sc.TimeoutOpsUS * 1000 * int64(pick(r, 11, 13, 20)) / 10, Pct: 100}}
+		sc.Class = "generic/callbacks/held"
+		sc.CutEnum = false
+	}
 
 	return sc
 }
@@ -193,6 +234,7 @@ func runC18(env *Env, s Scenario) {
 	}
 	out := env.K.Run(done, sc.Deadline(), Micro(sc.ReadDelayUS)*20+time.Millisecond)
 	env.Finish(out)
+	sc.noteCutBase(env, sr.Tr)
 	op := &sc.Ops[0]
 	env.Res.Shape = fmt.Sprintf("cbs=%d steps=%d seg=%s lat=%s rd=%d", len(op.Callbacks), len(sc.Dev.Modes)-1, sc.Net.SegMode, sc.Net.LatMode, sc.ReadDelayUS)
 	env.Res.Nontrivial = true
@@ -340,9 +382,10 @@ func init() {
 			QuickRuns: 2500,
 			ThoroughS: 300,
 		},
-		Gen: genC18,
-		New: func() Scenario { return &Session{} },
-		Run: runC18,
+		Gen:    genC18,
+		New:    func() Scenario { return &Session{} },
+		Run:    runC18,
+		Expand: func(b Scenario, res *Result, tier string) []Scenario { return expandSessionCuts(b, res, tier, 150) },
 		Shrink: func(s Scenario) []Scenario {
 			sc := s.(*Session)
 
